@@ -150,3 +150,40 @@ func runSeedWitness(p *Prop, dir string) witnessResult {
 	}
 	return res
 }
+
+func tryPatch(id, patch string) int {
+	p := props[id]
+	if p == nil {
+		fmt.Println("unknown property", id)
+		return 2
+	}
+	raw, err := os.ReadFile(patch)
+	if err != nil {
+		fmt.Println(err)
+		return 2
+	}
+	overlay, err := applyUnifiedDiff(repoDir(), string(raw))
+	if err != nil {
+		fmt.Println("patch:", err)
+		return 2
+	}
+	w, err := LoadWorld("quick", false, overlay)
+	if err != nil {
+		fmt.Println("load:", err)
+		return 2
+	}
+	r := &Run{ID: p.ID, Tier: "witness", start: time.Now(), W: w}
+	runRules(p, r)
+	n := 0
+	for _, o := range r.Obl {
+		if o.Status != "discharged" {
+			n++
+			fmt.Printf("  %s %s %s at %s: %s\n", o.Status, o.Rule, o.Construct, o.Pos, abbr(o.Note, 2))
+		}
+	}
+	if n == 0 {
+		fmt.Println("  MISSED: no rule of", id, "reports this patch")
+		return 1
+	}
+	return 0
+}
